@@ -66,6 +66,14 @@ def gen_list(rng):
         else:
             items.insert(0, (it[0], it[1], True))             # a large-text entry ahead of a 2-element one
             items.append((it[0], it[1]))
+    if rng.random() < 0.15:
+        # entries that compare equal in Python (1 == 1.0 == True) but are different colours to the parser
+        tw = rng.choice([(1, 1, 1), (1, 0, 0), (0, 1, 0), (0, 0, 1), (1, 1, 0), (1, 1, 1, 1), (0, 0, 0)])
+        variants = [tw, tuple(float(x) for x in tw), tuple(bool(x) for x in tw), list(tw)]
+        rng.shuffle(variants)
+        bgv = rng.choice(["#000000", "#fff", (0, 0, 0), (0.0, 0.0, 0.0)])
+        for v in variants[: rng.randrange(2, 5)]:
+            items.insert(rng.randrange(len(items) + 1), (v, bgv) if rng.random() < 0.6 else (v, bgv, bool(rng.randrange(2))))
     return items
 
 
